@@ -40,6 +40,9 @@ witness is a positive regression theorem (`whole_beyond_int64_regression`).
 import CtyModel.Lemmas.MsgpackKnown
 import CtyModel.Lemmas.MsgpackMarks
 import CtyModel.Lemmas.d16Text
+import CtyModel.Lemmas.d16SetLemmas
+import CtyModel.Lemmas.d16MarshalLemmas
+import CtyModel.Props.C08
 import CtyModel.Generated.Limits
 namespace CtyModel
 namespace C16
@@ -287,6 +290,62 @@ theorem roundtrip_covers_partial (E : Ext) (v : Value) (t : Ty) (hfit : Fits E t
     ∃ it v', marshal E v t = .ok it ∧ Unmarshal E it t = .ok v' ∧ ApproxV v' v :=
   roundtrip E v t hfit hset hconf
 
+/-- The round trip for values WITH SETS, without an assumed law: for the set constructor the
+correspondence driver runs (`Msgpack.setOfDedup`: keeps the first of members that are Equal, in the
+order they come; the harness compares sets up to order, bucket order is property C03's) the law
+`SetsRebuild` is a THEOREM for every value whose set members are pairwise `apart` (`setsApart`, a
+decidable syntactic condition evaluated by the driver on every generated case: one of the two
+members is unknown, or they differ in a bool, a string, a whole number, a length or a key, or in a
+constructor, at some position).  Not covered: sets whose members differ only in numbers that are not
+whole, and sets of sets of equal sizes. -/
+theorem roundtrip_covers_sets_partial (E : Ext) (hE : E.setOf = setOfDedup) (v : Value) (t : Ty)
+    (hfit : Fits E t v = true) (hsets : setsApart v.ty v.v = true) (hconf : Ty.conformErrs t v.ty = 0) :
+    ∃ it v', marshal E v t = .ok it ∧ Unmarshal E it t = .ok v' ∧ ApproxV v' v :=
+  roundtrip E v t hfit (setsRebuild_of_apart E hE v hsets) hconf
+
+/-! ### Marks on the conversion path -/
+
+/-- FULL statement (false): a value that contains a mark ANYWHERE is never accepted by `Marshal`,
+also when its type does not conform to the constraint (`marshalC`: `convert.Convert` first). -/
+def MarkedRejectedOnConversionPath : Prop :=
+  ∀ (E : Ext) (fuel : Nat) (v : Value) (t : Ty), v.containsMarked = true →
+    ∀ it, marshalC E Convert.driverEnv fuel v t ≠ .ok it
+
+/-- `{zz = {b = false (marked), zz = true}}`, an object whose only attribute holds a map with a marked member -/
+def markDroppedWitness : Value :=
+  ⟨.object ["zz"] [.map .bool] [false], .smap ["zz"] [.smap ["b", "zz"] [.marked ["m1"] (.b false), .b true]]⟩
+
+/-- … marshalled against the EMPTY object type: the type does not conform, `convert.Convert` drops the
+attribute the target type does not have — and the mark with it — and `Marshal` writes an empty map
+(replayed on /repo: `msgpack.Marshal(cty.ObjectVal(…"zz": cty.MapVal(… "b": cty.False.Mark("m1") …)),
+cty.EmptyObject)` answers the byte 0x80 and no error; finding `marked-rejected /
+accepted:mark-only-in-part-dropped-by-conversion-to-constraint`). -/
+theorem marked_rejected_conversion_counterexample : ¬ MarkedRejectedOnConversionPath := by
+  intro h
+  have hc : (match marshalC E0 Convert.driverEnv 64 markDroppedWitness (.object [] [] []) with
+             | .ok _ => true | _ => false) = true := by decide +kernel
+  cases hm : marshalC E0 Convert.driverEnv 64 markDroppedWitness (.object [] [] []) with
+  | ok it => exact h E0 64 markDroppedWitness _ (by decide) it hm
+  | err e => rw [hm] at hc; simp at hc
+  | panic w => rw [hm] at hc; simp at hc
+  | unmodelled => rw [hm] at hc; simp at hc
+
+/-- The strongest true statement: on the conversion path a mark that SURVIVES the conversion (at any
+depth of the converted value) makes `Marshal` refuse. -/
+theorem marked_rejected_conversion_partial (E : Ext) (C : Convert.Env) (fuel : Nat) (v v' : Value) (t : Ty)
+    (hn : Ty.conformErrs t v.ty ≠ 0) (hcv : Convert.convert C fuel v t = .ok v')
+    (hconf : Ty.conformErrs t v'.ty = 0) (hm : v'.containsMarked = true) (it : Item) :
+    marshalC E C fuel v t ≠ .ok it := by
+  intro h
+  have h1 : marshalC E C fuel v t = marshalV E v' t := by
+    unfold marshalC; rw [if_pos hn, hcv]
+  have h2 : marshalC E C fuel v' t = marshalV E v' t := by
+    unfold marshalC; simp [hconf]
+  rw [h1, ← h2, marshalC_conforming E C fuel v' t hconf] at h
+  have := marshal_ok_unmarked E v' t it h
+  rw [hm] at this
+  exact absurd this (by simp)
+
 /-- For a wholly known value the result is wholly equal: `RawEq` holds part for part
 (numbers: numerically identical when whole or an exact float64, Equal otherwise). -/
 theorem roundtrip_known_partial (E : Ext) (v : Value) (t : Ty) (hfit : Fits E t v = true) (hset : SetsRebuild E v)
@@ -342,15 +401,66 @@ theorem marked_rejected (E : Ext) (t vt : Ty) (ms : List String) (p : Payload) :
     marshal E ⟨vt, .marked ms p⟩ t = .err "value has marks" := by
   simp [marshal, Payload.isMarked]
 
-/-- A mark at any depth: `Marshal` does not succeed, and it does not panic either (what is
-left is an error — or, in the model, an input shape outside the modelled fragment). -/
+/-- A mark at any depth, for ANY value and constraint (also ill-shaped or non-conforming ones, where
+the model `marshal` answers `.unmodelled`): `Marshal` does not succeed and does not panic.  That what
+is left IS an error is `marked_nested_rejected_err` below. -/
 theorem marked_nested_rejected (E : Ext) (v : Value) (t : Ty) (h : v.containsMarked = true) :
     (∀ it, marshal E v t ≠ .ok it) ∧ (∀ w, marshal E v t ≠ .panic w) :=
   ⟨fun it hm => by simp [marshal_ok_unmarked E v t it hm] at h, marshal_no_panic E v t⟩
 
-/-- `Marshal` never panics, whatever the value and the constraint. -/
+/-- The model `marshal` never answers `.panic`, whatever the value and the constraint.  By itself
+this is weak: `marshal` answers `.unmodelled` on a payload that does not fit its type and on a
+value whose type does not conform (there the real code calls `convert.Convert` first).  The two
+theorems that close the gap are `marshal_total_partial` (conforming, well-shaped values: the answer
+is a value or an error) and `marshalC_never_panics_partial` (the conversion path, `marshalC`). -/
 theorem marshal_never_panics (E : Ext) (v : Value) (t : Ty) (w : String) : marshal E v t ≠ .panic w :=
   marshal_no_panic E v t w
+
+/-- Clause "… rejected with an error", at any depth: for a value whose payload has the shape its
+type dictates (`shapeP`: marks allowed ANYWHERE, capsules allowed, nothing is said about what is
+inside a marked node) and whose type conforms to the constraint, with `SafeKnownPrefix` answering on
+every input, a mark at any depth makes `Marshal` answer an ERROR — not `.unmodelled`, not a panic. -/
+theorem marked_nested_rejected_err (E : Ext) (hs : SafeTotal E) (v : Value) (t : Ty) (ht : t.wf = true)
+    (hv : v.ty.wf = true) (hconf : Ty.conformErrs t v.ty = 0) (hp : shapeP v.ty v.v = true)
+    (hm : v.containsMarked = true) : ∃ e, marshal E v t = .err e :=
+  marked_nested_err E hs v t hconf (confShape_of_conform t v.ty ht hv hconf) hp hm
+
+/-- `Marshal` on a well-shaped value of a conforming type answers a value or an error: never a
+panic, and never outside the modelled fragment (audit of C16, missing theorem (c)). -/
+theorem marshal_total_partial (E : Ext) (hs : SafeTotal E) (v : Value) (t : Ty) (ht : t.wf = true)
+    (hv : v.ty.wf = true) (hconf : Ty.conformErrs t v.ty = 0) (hp : shapeP v.ty v.v = true) :
+    (∃ it, marshal E v t = .ok it) ∨ (∃ e, marshal E v t = .err e) :=
+  marshal_total E hs v t hconf (confShape_of_conform t v.ty ht hv hconf) hp
+
+/-- `Msgpack.marshalC` is `Marshal` WITH its non-conforming path (`convert.Convert` first — the model
+of property C08, in any environment `C`); on a conforming value it is `marshal`. -/
+theorem marshalC_conforming_eq (E : Ext) (C : Convert.Env) (fuel : Nat) (v : Value) (t : Ty)
+    (h : Ty.conformErrs t v.ty = 0) : marshalC E C fuel v t = marshal E v t :=
+  marshalC_conforming E C fuel v t h
+
+/-- `Marshal` adds no panic of its own on the conversion path: `marshalC` panics only where
+`convert.Convert` does … -/
+theorem marshalC_panics_only_in_convert (E : Ext) (C : Convert.Env) (fuel : Nat) (v : Value) (t : Ty) (w : String)
+    (h : marshalC E C fuel v t = .panic w) : Convert.convert C fuel v t = .panic w :=
+  marshalC_panic_only_from_convert E C fuel v t w h
+
+/-- … and in the environment the drivers run (`Convert.driverEnv`, diffed against /repo by `cv.convert`
+and `d16.marshalc`), for a well-typed wholly-known value and a placeholder-free constraint
+(`Convert.RegularPair`, C08's side condition), conforming or not: no panic at all. -/
+theorem marshalC_never_panics_partial (E : Ext) (fuel : Nat) (v : Value) (t : Ty)
+    (hp : Convert.RegularPair v t) (hk : Payload.whollyKnown v.v = true) (w : String) :
+    marshalC E Convert.driverEnv fuel v t ≠ .panic w := by
+  intro h
+  have := C08.no_panic_driver fuel v t hp hk
+  rw [marshalC_panic_only_from_convert E _ fuel v t w h] at this
+  simp [Res.isPanic] at this
+
+/-- … and when the conversion answers a well-shaped value, `Marshal` answers a value or an error. -/
+theorem marshalC_total_partial (E : Ext) (hs : SafeTotal E) (C : Convert.Env) (fuel : Nat) (v v' : Value) (t : Ty)
+    (hn : Ty.conformErrs t v.ty ≠ 0) (hcv : Convert.convert C fuel v t = .ok v')
+    (hc : confShape t v'.ty = true) (hp : shapeP v'.ty v'.v = true) :
+    (∃ it, marshalC E C fuel v t = .ok it) ∨ (∃ e, marshalC E C fuel v t = .err e) :=
+  marshalC_total_of_convert E hs C fuel v v' t hn hcv hc hp
 
 /-! ## Counterexamples to the full statement (replays of recorded findings) -/
 
@@ -449,6 +559,18 @@ example : SetsRebuild E0 sample := noSets rfl
 example : Fits E0 (.set .number) ⟨.set .number, .sset [1, 2] [.n (.fin false 1 0 64), .unk (.num .f none none)]⟩ = true ∧
     SetsRebuild E0 ⟨.set .number, .sset [1, 2] [.n (.fin false 1 0 64), .unk (.num .f none none)]⟩ :=
   ⟨by decide, fun _ _ ps' h => ⟨[], ps', rfl, h⟩⟩
+-- the same with the de-duplicating constructor of the driver: every hypothesis of `roundtrip_covers_sets_partial`
+example : Fits ⟨id, fun _ => none, setOfDedup⟩ (.set .number)
+      ⟨.set .number, .sset [1, 2, 3] [.n (.fin false 1 0 64), .n (.fin false 3 0 64), .unk (.num .f none none)]⟩ = true ∧
+    setsApart (.set .number) (.sset [1, 2, 3] [.n (.fin false 1 0 64), .n (.fin false 3 0 64), .unk (.num .f none none)]) = true := by
+  decide
+-- marks at depth, a capsule-free conforming shape: the hypotheses of `marked_nested_rejected_err`
+example : shapeP (.list .string) (.seq [.s "a", .marked ["m"] (.s "b")]) = true ∧
+    Ty.conformErrs (.list .dyn) (.list .string) = 0 ∧
+    (⟨.list .string, .seq [.s "a", .marked ["m"] (.s "b")]⟩ : Value).containsMarked = true := by decide
+-- numbers on the text route covered by the digit-level hypothesis (1/8 + 2^-70 at 512 bits; 5/8 at 20 bits is a float64)
+example : digitsExact (.fin false (2 ^ 60 + 1) (-70) 512) = true ∧ digitsExactOwn (.fin false (2 ^ 60 + 1) (-70) 61) = false ∧
+    (Num.toF64 (.fin false (2 ^ 60 + 1) (-70) 512)).2 = false := by decide +kernel
 example : (Num.fin false 5 0 512).toInt? = some 5 ∧ minI64 ≤ (5 : Int) ∧ (5 : Int) ≤ maxI64 := by decide
 example : (⟨.list .string, .seq [.s "a", .marked ["m"] (.s "b")]⟩ : Value).containsMarked = true := by decide
 example : Fits E0 .dyn ⟨.list .number, .seq [.n (.fin false 1 63 64), .n (.fin false 1 (-1) 512)]⟩ = true := by decide
